@@ -119,6 +119,7 @@ func filler(seed, n int, text bool) string {
 // Gen draws a world.
 func Gen(t *rapid.T, cfg Config) *World {
 	w := New()
+	w.ForeignEvery = rapid.SampledFrom([]int{0, 0, 2, 5}).Draw(t, "foreignSerializerEvery")
 	// files
 	nf := rapid.IntRange(0, cfg.MaxFiles).Draw(t, "nFiles")
 	for i := 0; i < nf; i++ {
